@@ -336,3 +336,32 @@ pub fn run(tier: &str) -> ! {
     ];
     rep.finish()
 }
+
+
+/// Replays one case: {"atoms": [texts], "haystack": text, "config": "default"|"match_paths"}.
+pub fn replay_case(c: &Value, acc: &mut Acc) {
+    let texts: Vec<String> = c["atoms"].as_array().map(|a| a.iter().filter_map(|x| x.as_str().map(|s| s.to_owned())).collect()).unwrap_or_default();
+    let atoms: Vec<Atom> = texts.iter().map(|t| Atom::parse(t, CaseMatching::Smart, Normalization::Smart)).collect();
+    let cfg = if c["config"].as_str() == Some("match_paths") { Config::DEFAULT.match_paths() } else { Config::DEFAULT };
+    let Some(h) = c["haystack"].as_str() else {
+        // match_list / multi-column cases carry other keys; they are re-judged by a full run
+        acc.count("case kinds not replayed individually (match_list, multi-column)", 1);
+        return;
+    };
+    let hay = Utf32String::from(h);
+    let table: Vec<AtomAlone> = atoms.iter().map(|a| atom_alone(a, &cfg, hay.slice(..))).collect();
+    let list: Vec<usize> = (0..atoms.len()).collect();
+    let (want, want_idx) = expected(&list, &table);
+    let mut pat = Pattern::default();
+    pat.atoms = atoms.clone();
+    let mut m = Matcher::new(cfg.clone());
+    let got = pat.score(hay.slice(..), &mut m);
+    if got != want {
+        acc.violation("C15/Pattern::score/replay", "Pattern::score differs from the conjunction of its atoms", || json!({"atoms": texts, "haystack": h, "expected": want, "got": got}));
+    }
+    let mut idx = vec![9, 9];
+    let got_i = pat.indices(hay.slice(..), &mut m, &mut idx);
+    if got_i != want || (want.is_some() && idx[2..] != want_idx[..]) || idx[..2] != [9, 9] {
+        acc.violation("C15/Pattern::indices/replay", "Pattern::indices differs from the conjunction of its atoms", || json!({"atoms": texts, "haystack": h, "expected": [json!(want), json!(want_idx)], "got": [json!(got_i), json!(idx)]}));
+    }
+}
